@@ -11,7 +11,9 @@ Limits == {<<0, 1>>} \cup {Q(k) : k \in 1..5}
 (* flexible steps whose bin edges offset + k w never hit an integer radius inside the simulated range *)
 Steps == {<<9, 8>>, <<13, 8>>}
 Segs == {<<1, 1>>, <<2, 1>>, <<2, 4>>, <<3, 2>>}
-Init == /\ \E n \in Sizes, lo \in Limits, mid \in Limits, hi \in Limits, st \in Steps, sg \in Segs :
+(* from the centre (offset 0) also a step that is no binary fraction: its edges 7 j / 20 meet a lattice radius only at j = 20 *)
+StepsFor(lo) == IF lo = <<0, 1>> THEN Steps \cup {<<7, 20>>} ELSE Steps
+Init == /\ \E n \in Sizes, lo \in Limits, mid \in Limits, hi \in Limits, sg \in Segs : \E st \in StepsFor(lo) :
              /\ RLt(lo, mid) /\ RLt(mid, hi) /\ RLe(hi, RInt(n \div 2))
              /\ c = [n |-> n, inner |-> lo, mid |-> mid, outer |-> hi, step |-> st, segs |-> sg]
         /\ done = FALSE
